@@ -1,4 +1,5 @@
-"""C08 — generated readers are total and bounded (DESIGN.md §4 C08); TL1 part here (TL2/JSON parts are tied by the C03/C05 checks' malformed streams)."""
+"""C08 — generated readers are total and bounded (DESIGN.md §4 C08): TL1 (tied to the model, theorems), JSON texts (implementation-only
+no-panic oracle); the TL2 malformed streams are tied by C03/C13."""
 import os
 from checks import codec_common as cc
 from vlib.core import hx, run_lines, ROOT
@@ -14,6 +15,99 @@ L4A_KEY = "L4:alloc-amplification-zero-wire-size-elements:CheckLengthSanity(…,
 # bytes a reader may allocate per input byte before the check calls it out of proportion (Go struct sizes / wire sizes ≤ ~16 in the corpus)
 ALLOC_PER_BYTE = 256
 ALLOC_SLACK = 1 << 16
+
+
+def json_variants(rng, text):
+    """malformed / unexpected-shape variants of one JSON text (bytes): structural edits when it parses, byte edits always"""
+    import json
+    out = []
+    try:
+        tree = json.loads(text.decode("utf-8", "replace"), parse_constant=lambda x: 0)
+    except Exception:
+        tree = None
+    OTHER = [None, True, 0, -1, 1e300, 2 ** 70, "x", "", [], {}, [[]], {"a": 1}, [1, 2, 3, 4, 5, 6, 7, 8, 9, 10, 11, 12, 13]]
+
+    def edit(t, budget):
+        # one random structural edit somewhere in the tree
+        if isinstance(t, list):
+            k = rng.below(5)
+            if k == 0 or not t:
+                return t + [t[-1] if t else 0] * rng.range(1, 3)      # longer than the schema says (fixed tuples: N+1, N+2 elements)
+            if k == 1:
+                return t[:-1]
+            if k == 2:
+                return t + [rng.choice(OTHER)]
+            i = rng.below(len(t))
+            return t[:i] + [edit(t[i], budget)] + t[i + 1:]
+        if isinstance(t, dict) and t:
+            keys = list(t)
+            key = rng.choice(keys)
+            k = rng.below(5)
+            if k == 0:
+                return {kk: v for kk, v in t.items() if kk != key}
+            if k == 1:
+                d = dict(t)
+                d["unknown_" + key] = rng.choice(OTHER)
+                return d
+            d = dict(t)
+            d[key] = edit(t[key], budget)
+            return d
+        return rng.choice(OTHER)
+
+    if tree is not None:
+        for _ in range(4):
+            try:
+                out.append(json.dumps(edit(tree, 3)).encode())
+            except Exception:
+                pass
+        out.append(json.dumps([tree] * 3).encode())
+    m = bytearray(text)
+    if m:
+        for _ in range(2):
+            mm = bytearray(m)
+            i = rng.below(len(mm))
+            k = rng.below(4)
+            if k == 0:
+                mm[i] = rng.choice(b'[]{}",:0-9e.\\ntf')
+            elif k == 1:
+                del mm[i:i + rng.range(1, 4)]
+            elif k == 2:
+                mm[i:i] = rng.choice([b"[", b"]", b"{", b"}", b",", b'"', b"1e999", b"-", b"\\u12", b"null", b"[[[[[[[["])
+            else:
+                mm = mm[:i]
+            out.append(bytes(mm))
+    out.append(b"[" * 200)
+    out.append(b'{"a":' * 100)
+    return out
+
+
+def json_leg(c, sc, rng, pre):
+    """JSON text part of the statement (implementation only): every generated JSON reader returns normally on valid texts of other
+    shapes than the schema expects (longer / shorter arrays, wrong value kinds, unknown and missing properties), on mutated texts and
+    on pathological nesting. The texts start from what the generated writers emit for type-directed values."""
+    g = cc.Gen1(sc, rng.fork(), big=False)
+    src = []
+    for inst, it in sc.items:
+        if inst["kind"] == "union":
+            continue
+        for _ in range(3 if c.thorough else 1):
+            src.append(("codec.jtext %s %d %s 0 %s" % (sc.sid, inst["idx"], inst["tlname"], hx(g.value(inst["idx"], True, [], 0))), inst))
+    texts = run_lines(sc.impl, [l for l, _ in src], prefix=pre, mem_limit=c.impl_mem_limit, timeout=300)
+    lines = []
+    for (l, inst), a in zip(src, texts):
+        if not a.startswith("ok "):
+            continue
+        t = a.split(" ")[1]
+        text = b"" if t == "-" else bytes.fromhex(t)
+        for v in json_variants(rng, text):
+            lines.append("codec.rj %s %d %s %d %s" % (sc.sid, inst["idx"], inst["tlname"], rng.below(2), hx(v)))
+    out = run_lines(sc.impl, lines, prefix=pre, mem_limit=c.impl_mem_limit, timeout=600)
+    for l, a in zip(lines, out):
+        c.evaluations += 1
+        c.count("json-total:" + a.split(" ")[0])
+        c.distinct.add(l)
+        if a in ("panic", "CRASH", "TIMEOUT"):
+            c.oracle_fail(l, "generated JSON reader does not return normally on this text: %s (%s)" % (a, bytes.fromhex(l.split(" ")[5])[:120] if l.split(" ")[5] != "-" else b""), l)
 
 
 def run(c):
@@ -91,8 +185,9 @@ def run(c):
                 else:
                     c.oracle_fail(l, "reader allocated %d bytes for %d input bytes with length sanity checks enabled" % (alloc, n), l)
         c.extra.setdefault("worst_alloc_per_input_byte", {})[sc.sid] = round(worst, 1)
+        json_leg(c, sc, rng, pre)
     c.extra["rule"] = ("malformed TL1 stream only (4 mutations per valid encoding + random bytes) on schemas generated with --checkLengthSanity; "
                        "oracle: no panic/crash/timeout; allocation runs: valid encodings with each 32-bit word inflated to the largest count "
                        "the sanity check admits, TotalAlloc delta ≤ %d·len + %d" % (ALLOC_PER_BYTE, ALLOC_SLACK))
     c.assumptions += ["heap measurement is runtime.MemStats.TotalAlloc of one decode (includes slice headers and size-class rounding)",
-                      "JSON text totality rests on easyjson/jlexer (a dependency, trusted)"]
+                      "JSON totality is explored, not proved: structural and byte-level variants of writer output; the tokenizer easyjson/jlexer is a trusted dependency"]
